@@ -220,6 +220,53 @@ theorem C13_coded_all_or_nothing :
     (readFile coded W3).field? "ta" = some ([], true) ∧
     (readFile patched W3).field? "ta" = some (["anc:q"], true) := by decide
 
+/-! ### "The field for each data variable is still returned" -/
+
+/-- **A rejected `coordinates` token is not counted as a reference**: a token naming a missing
+variable, or a variable with a dimension foreign to the parent — be it a private variable, a valid
+coordinate of another data variable (already in the cache or not) or another data variable — adds a
+message and NO element; the references of a field are read off its elements (`references`). -/
+theorem C13_rejected_coordinate_not_referenced (F : NcFile) (P : Pre) (v : String) (D : List String) (s : FSt)
+    (tok : String) (hD : D.contains tok = false)
+    (hrej : F.var? tok = none ∨
+      ∃ cv, F.var? tok = some cv ∧ (applyComp P.comp (rawDims cv)).all D.contains = false) :
+    ∃ s', auxToken patched F P v D s tok = .ok s' ∧ s'.out.elems = s.out.elems ∧ s'.out.msgs ≠ s.out.msgs ∧
+      s'.C.aux = s.C.aux := by
+  rcases hrej with hv | ⟨cv, hv, hf⟩
+  · exact ⟨_, auxToken_missing F P v D s tok hD hv, by simp [FSt.add], by simp [FSt.add], rfl⟩
+  · exact ⟨_, auxToken_foreign F P v D s tok cv hD hv hf, by simp [FSt.add], by simp [FSt.add], rfl⟩
+
+/-- **The returned fields**: every created field whose variable is not referenced by a construct that
+was actually attached (to any field) is returned; only variables that stay referenced are withheld. -/
+theorem C13_unreferenced_field_returned (rs : List (String × FieldOut)) (r : String × FieldOut) (hr : r ∈ rs)
+    (hun : ∀ p ∈ references rs, p.1 ≠ r.1) : r ∈ selectFields rs :=
+  selectFields_unreferenced rs r hr hun
+
+theorem C13_withheld_fields_are_referenced (rs : List (String × FieldOut)) (r : String × FieldOut)
+    (hr : r ∈ rs) (hout : r ∉ selectFields rs) : ∃ p ∈ references rs, p.1 = r.1 := by
+  by_cases h : ∀ p ∈ references rs, p.1 ≠ r.1
+  · exact absurd (selectFields_unreferenced rs r hr h) hout
+  · have h' : ∃ p, p ∈ references rs ∧ ¬ (p.1 ≠ r.1) := by
+      apply Classical.byContradiction
+      intro hn
+      exact h (fun p hp hne => hn ⟨p, hp, fun hx => hx hne⟩ |> fun x => x)
+    obtain ⟨p, hp, hpe⟩ := h'
+    exact ⟨p, hp, Classical.byContradiction (fun hne => hpe hne)⟩
+
+/-- `ps(y,x)` names the data variable `ta(z,y,x)` (foreign dimensions) and `height(z,y,x)` — a valid
+coordinate of `ta`, created first — in its `coordinates`. -/
+def W4 : NcFile :=
+  { globals := [], dims := ["z", "y", "x"],
+    vars := [⟨"height", ["z", "y", "x"], .num, []⟩, ⟨"lat2d", ["y", "x"], .num, []⟩,
+             ⟨"ta", ["z", "y", "x"], .num, [("coordinates", "height lat2d")]⟩,
+             ⟨"ps", ["y", "x"], .num, [("coordinates", "lat2d ta height")]⟩] }
+
+set_option maxRecDepth 100000 in
+/-- Non-vacuity: both data variables keep their fields, `ps` keeps `lat2d` only and is reported. -/
+example : (readFile patched W4).field? "ta" = some (["aux:height", "aux:lat2d"], false) ∧
+    (readFile patched W4).field? "ps" = some (["aux:lat2d"], true) ∧
+    (readFile patched W4).field? "height" = none := by decide
+
 /-- What is proved of `C13_tolerant` at the level of whole files: for every readable dataset — in
 particular for `breakRef F site kind` of every site and kind, whose readability does not depend on
 the value of any reference attribute — the read returns, the files are closed, and every variable
